@@ -3,6 +3,7 @@ package main
 import (
 	"encoding/json"
 	"fmt"
+	"math"
 	"math/rand"
 	"strings"
 
@@ -35,9 +36,9 @@ func tableWithWeights(id int, w func(c string) int) (codon.Table, string) {
 
 func c18Replay(c json.RawMessage) Verdict {
 	var cs struct {
-		Id, Cut             int
-		Wa, Wb, Add, Comp   sparse
-		Err                 bool
+		Id, Cut, Eps      int
+		Wa, Wb, Add, Comp sparse
+		Err               bool
 	}
 	if err := json.Unmarshal(c, &cs); err != nil {
 		fatal("C18 case: %v", err)
@@ -56,6 +57,15 @@ func c18Replay(c json.RawMessage) Verdict {
 		return bad("AddCodonTable: %s", e)
 	}
 	cut := float64(cs.Cut) / 10000
+	if cs.Eps != 0 {
+		// a hair off the grid value, in three magnitudes: every one of them must get the same answer
+		for _, d := range []float64{5e-5, 1e-9} {
+			if msg := c18Hair(ta, tb, cut+float64(cs.Eps)*d, cs.Err, cs.Comp); msg != "" {
+				return bad("%s", msg)
+			}
+		}
+		cut = math.Nextafter(cut, float64(cs.Eps)*2)
+	}
 	ab, err := codon.CompromiseCodonTable(ta, tb, cut)
 	if cs.Err {
 		if err == nil {
@@ -84,6 +94,24 @@ func c18Replay(c json.RawMessage) Verdict {
 		}
 	}
 	return ok(true)
+}
+
+// c18Hair: one more cut-off with the same specified outcome
+func c18Hair(ta, tb codon.Table, cut float64, wantErr bool, nom sparse) string {
+	ab, err := codon.CompromiseCodonTable(ta, tb, cut)
+	if wantErr != (err != nil) {
+		if wantErr {
+			return fmt.Sprintf("CompromiseCodonTable accepted cut-off %v outside 0..1", cut)
+		}
+		return fmt.Sprintf("CompromiseCodonTable rejected cut-off %v: %v", cut, err)
+	}
+	if err == nil {
+		w, _, perr := projectTable(ab)
+		if perr != "" || !matches(w, nom, 1) {
+			return fmt.Sprintf("CompromiseCodonTable(cut %v): weights differ from the specification by more than 1 (%s): %v", cut, perr, diffCells(w, nom, 1))
+		}
+	}
+	return ""
 }
 
 func diffCells(obs map[string]int, nom sparse, tol int) []string {
@@ -151,14 +179,30 @@ func c18Record(tier string, seed int64, emit func(interface{})) {
 				cut = 10000*wa[c]/tot + rng.Intn(3) - 1
 			}
 		}
-		ev := map[string]interface{}{"k": "combine", "id": id, "wa": toSparse(wa), "wb": toSparse(wb), "cut": cut}
+		eps, fcut := 0, float64(cut)/10000
+		if rng.Intn(4) == 0 { // a hair off the grid value; often at the ends of the interval
+			eps = 2*rng.Intn(2) - 1
+			if rng.Intn(2) == 0 {
+				cut = 10000 * rng.Intn(2)
+			}
+			fcut = float64(cut) / 10000
+			switch rng.Intn(3) {
+			case 0:
+				fcut += float64(eps) * 5e-5
+			case 1:
+				fcut += float64(eps) * 1e-9
+			default:
+				fcut = math.Nextafter(fcut, float64(eps)*2)
+			}
+		}
+		ev := map[string]interface{}{"k": "combine", "id": id, "wa": toSparse(wa), "wb": toSparse(wb), "cut": cut, "eps": eps}
 		sum := codon.AddCodonTable(ta, tb)
 		ws, ls, _ := projectTable(sum)
 		ev["add"], ev["addletters"], ev["addstarts"], ev["addstops"] = toSparse(ws), lettersString(ls), nz(sum.StartCodons), nz(sum.StopCodons)
-		ab, err := codon.CompromiseCodonTable(ta, tb, float64(cut)/10000)
+		ab, err := codon.CompromiseCodonTable(ta, tb, fcut)
 		ev["err"] = err != nil
 		if err == nil {
-			ba, _ := codon.CompromiseCodonTable(tb, ta, float64(cut)/10000)
+			ba, _ := codon.CompromiseCodonTable(tb, ta, fcut)
 			wab, lab, _ := projectTable(ab)
 			wba, _, _ := projectTable(ba)
 			ev["comp"], ev["compba"] = toSparse(wab), toSparse(wba)
